@@ -334,7 +334,7 @@ func (rs *runState) session(s *sess, wg *sync.WaitGroup) {
 		case k < 62:
 			_, ok = rs.cmd(s, fmt.Sprintf("%sSEARCH %s", []string{"", "UID "}[r.Intn(2)], []string{"ALL", "UNSEEN TEXT hello", "OR DELETED SEEN 1:*", "NOT KEYWORD kw"}[r.Intn(4)]))
 		case k < 68:
-			_, ok = rs.cmd(s, []string{`LIST "" *`, `LIST "" % RETURN (STATUS (MESSAGES UNSEEN))`, `LSUB "" *`, `LIST (SUBSCRIBED) "" *`}[r.Intn(4)])
+			_, ok = rs.cmd(s, []string{`LIST "" *`, `LIST "" % RETURN (STATUS (MESSAGES UNSEEN))`, `LSUB "" *`, `LIST (SUBSCRIBED) "" *`, `LIST "" ""`, `LSUB "" ""`, `LIST "A" ""`, `LIST "" (A "" B%)`, `LIST "" nosuch`}[r.Intn(9)])
 		case k < 72:
 			_, ok = rs.cmd(s, "STATUS "+box()+" (MESSAGES UNSEEN UIDNEXT UIDVALIDITY)")
 		case k < 78:
